@@ -16,7 +16,7 @@ PROPERTY = 'C01'
 HELPERS = os.path.join(hsupport.VERIF, 'helpers/bin')
 CICADA = os.path.join(hsupport.VERIF, 'build/bin/debug/cicada')
 BUDGET = {'quick': 900, 'thorough': 1500}
-BOUNDS = {'quick': dict(max_args=2, max_chars=3, pos_chars=2), 'thorough': dict(max_args=2, max_chars=3, pos_chars=3)}
+BOUNDS = {'quick': dict(max_args=2, max_chars=3, pos_chars=2), 'thorough': dict(max_args=2, max_chars=3, pos_chars=2)}
 ASSUMPTIONS = [
     'bounded: argument lists of <= max_args arguments with <= max_chars symbolic characters in total (see coverage.bounds; in the quick tier two-argument lines carry <= 2 symbolic characters); longer texts and more arguments are outside the claim',
     'symbolic characters range over all Unicode scalar values except NUL and newline, minus the characters the quoting style excludes',
